@@ -186,7 +186,48 @@ func (g *gen) classAtom() string {
 
 var rangeEnds = [][2]string{{"a", "c"}, {"a", "z"}, {"A", "Z"}, {"0", "9"}, {"b", "b"}, {`\x61`, `\x63`}, {"A", "z"}, {" ", "~"}, {`\t`, `\r`}, {"à", "ÿ"}, {"a", `ÿ`}, {`\cA`, `\cZ`}, {`\0`, "a"}, {`\b`, `\n`}, {"j", "l"}, {"r", "t"}}
 
+// casePair reports a class whose content is exactly the two cases of one ASCII letter ([Bb]): Go's
+// parser turns it into (?i:B) and then factors it with a neighbouring literal B (a bug of
+// regexp/syntax in go1.23, see NOTES.md) – kept out of the stream.
+func casePair(c string) bool {
+	// collapse x-x to x and drop repeated characters first ([Bb-b], [bBb])
+	if len(c) < 4 || c[0] != '[' || c[1] == '^' {
+		return false
+	}
+	in := []byte(c[1 : len(c)-1])
+	var set []byte
+	for i := 0; i < len(in); i++ {
+		ch := in[i]
+		if i+2 < len(in) && in[i+1] == '-' && in[i+2] == ch {
+			i += 2
+		}
+		dup := false
+		for _, s := range set {
+			if s == ch {
+				dup = true
+			}
+		}
+		if !dup {
+			set = append(set, ch)
+		}
+	}
+	if len(set) != 2 {
+		return false
+	}
+	a, b := set[0], set[1]
+	return a != b && (a|0x20) == (b|0x20) && (a|0x20) >= 'a' && (a|0x20) <= 'z'
+}
+
 func (g *gen) class() string {
+	for {
+		c := g.class1()
+		if !casePair(c) {
+			return c
+		}
+	}
+}
+
+func (g *gen) class1() string {
 	var b strings.Builder
 	b.WriteString("[")
 	if g.r.Chance(30) {
@@ -270,10 +311,13 @@ func (g *gen) term(depth int) node {
 		for tries := 0; ; tries++ {
 			save := g.groups
 			a := g.atom(depth)
-			// nullable quantified bodies only rarely (region nullable_loop)
-			if a.null && !(g.r.Chance(4)) && tries < 5 {
+			// no nullable quantified bodies here (region nullable_loop; it also has a fixed stream of its own)
+			if a.null && tries < 8 {
 				g.groups = save
 				continue
+			}
+			if a.null {
+				return a // never quantify a nullable body at random: Go's memoised backtracking is not modelled there
 			}
 			q, zero := g.quant()
 			return node{a.s + q, zero || a.null}
@@ -371,7 +415,7 @@ func (g *gen) flags() string {
 var snippets = []string{`(?=a)`, `(?!a)`, `\1`, `\2`, `\10`, `\12`, `\8`, `\9`, `(?i)`, `(?P<n>a)`, `\a`, `\_`, `\x4`, `\u12`, `\c1`, `\c`, `[]`, `[^]`,
 	`a**`, `a{2}{3}`, `a{3,2}`, `a{1001}`, `a{1000}`, `{`, `}`, `]`, `a{,2}`, `^*`, `\b+`, `$?`, `(`, `)`, `[`, `\`, `[b-a]`, `[a-\d]`, `[\d-a]`, `x{2`, `\00`, `\01`,
 	`\777`, `\A`, `\z`, `\Q`, `\e`, `(?<n>a)`, `(?:`, `(?`, `*`, `+`, `?`, `|*`, `(*a)`, `a+?+`, `a*?`, `a??`, `[a-]`, `[-a]`, `[a-b-c]`, `\07`, `\3x`, `(a)\1`,
-	`[]|[a]`, `[^]a]`, `[]a]`, `\18`, `\81`, `(?=a)*`, `(?im)`, `(?i:a)`, `(?-i)`, `(?i-m:a)`, `\u00zz`, `\xg1`, `\cé`, `\y`, `\Z`, `{1}`, `a{1`, `a{1,`, `a{1,2`, `a{ 1}`}
+	`[]|[a]`, `[^]a]`, `[]a]`, `\18`, `\81`, `(?=a)*`, `(?im)`, `(?i:a)`, `(?-i)`, `(?i-m:a)`, `\u00zz`, `\xg1`, `\cé`, `\y`, `\Z`, `{1}`, `a{1`, `a{1,`, `a{1,2`, `a{ 1}`, `a{01}`, `a{00,1}`, `a{1,02}`, `(a{500}){3}`, `(a{2}){501}`, `(?)`, `(?-)`, `a{0}`, `a{0,0}`}
 
 func genC10(c *h.Ctx) {
 	g := &gen{r: c.Rng}
@@ -401,6 +445,16 @@ func genC10(c *h.Ctx) {
 			key = "new:flags"
 		}
 		c.Add("new "+hexTok(p)+" "+hexTok(fl), key)
+	}
+	// region nullable_loop: fixed shapes x subjects
+	for _, p := range []string{`(a*)?`, `(a*)*`, `(a?)*`, `(?:a*)+`, `(a*)+`, `(|a)*`, `(a|)+`, `(a*?)*`, `(a*){2,3}`, `(a*)*b`, `(?:a|())*`, `(a?)+?b`, `(a*|b)*`, `(?:a?)??b`, `(^)*a`, `(a*)*?`, `(a?){2}`} {
+		for _, s := range []string{"", "b", "a", "aa", "aab", "ba", "bab"} {
+			for _, st := range []string{"e", "m", "rF", "p:u", "s"} {
+				for _, fl := range []string{"", "g"} {
+					c.Add("x "+hexTok(p)+" "+hexTok(fl)+" "+hexTok(s)+" "+st, "x:nullable_loop")
+				}
+			}
+		}
 	}
 	// histories
 	for i := 0; i < c.N(30000, 1500000); i++ {
